@@ -191,8 +191,8 @@ def check_fifo(prop, tier, seed, replay):
 
 ROUTING_TIERS = {
     # (3-call programs, shards, m3 (runs, goroutines, calls), design configs)
-    "quick": (False, 4, (3, 6, 40), ["two-two-b0-noclose", "stream-two-e2"]),
-    "thorough": (True, 16, (40, 8, 80), ["two-two-b0", "stream-two-b0", "stream-stream-b1", "three-b0"]),
+    "quick": (False, 4, (8, 6, 40), ["two-two-b0-noclose", "three-two-nocrash"]),
+    "thorough": (True, 16, (60, 8, 80), ["two-two-b0", "stream-two-b0", "stream-stream-b1", "three-b0", "three-two-nocrash"]),
 }
 ROUTING_OWN = {"C05": "AtMostOneResponse ConfirmOnlyOneWay (Channel.tla); Deliver/Recv/Drop preconditions, QF stamps (Routing.tla)",
                "C18": "NoResidue (Channel.tla, Routing.tla): router tables empty and no per-call goroutine at quiescence"}
